@@ -159,19 +159,19 @@ func classifyMapRange(fd *ast.FuncDecl, rs *ast.RangeStmt, info *types.Info) (st
 // reviewedMapRanges lists order-sensitive-looking loops that were read and found
 // harmless, keyed by function; each with the reason.
 var reviewedMapRanges = map[string]string{
-	"mem/datamover.ctrlMiddleware.endInflightTasks":      "tracing-only body: ends trace tasks, generates no ID and touches no simulation state",
-	"mem/vm/gmmu.ctrlMiddleware.endInflightTasks":        "tracing-only body: ends trace tasks",
-	"mem/vm/mmuCache.ctrlMiddleware.endInflightTasks":    "tracing-only body: ends trace tasks",
-	"messaging.PortOwnerBase.GetPortByName":              "diagnostic on a failing path (builds the panic message)",
-	"simulation.Simulation.checkpointCoverage":           "returns an error naming some mismatching entity; any mismatch fails the load",
-	"tracing.DBTracer.StartTracing":                      "marks every running task to be recorded: idempotent per entry",
-	"datarecording.sqliteWriter.flushLocked":             "recorder internals: per-table batches written inside one transaction; observer side, not simulation state",
-	"datarecording.sqliteWriter.buildIndexes":            "recorder internals: index creation order does not affect contents",
-	"datarecording.sqliteWriter.ListTables":              "returns table names; callers treat the result as a set",
-	"datarecording.sqliteReader.ListTables":              "reader side, not simulation",
-	"internal/codec.Registry.Tags":                       "audit helper; result is sorted by its caller",
-	"tracing/tracingtest.LeakRecorder.OpenTasks":         "test helper",
-	"sourcefs.OpenTraceSource":                           "collects the root names; NewSource copies and sorts them (sort.Strings) before they are used",
+	"mem/datamover.ctrlMiddleware.endInflightTasks":   "tracing-only body: ends trace tasks, generates no ID and touches no simulation state",
+	"mem/vm/gmmu.ctrlMiddleware.endInflightTasks":     "tracing-only body: ends trace tasks",
+	"mem/vm/mmuCache.ctrlMiddleware.endInflightTasks": "tracing-only body: ends trace tasks",
+	"messaging.PortOwnerBase.GetPortByName":           "diagnostic on a failing path (builds the panic message)",
+	"simulation.Simulation.checkpointCoverage":        "returns an error naming some mismatching entity; any mismatch fails the load",
+	"tracing.DBTracer.StartTracing":                   "marks every running task to be recorded: idempotent per entry",
+	"datarecording.sqliteWriter.flushLocked":          "recorder internals: per-table batches written inside one transaction; observer side, not simulation state",
+	"datarecording.sqliteWriter.buildIndexes":         "recorder internals: index creation order does not affect contents",
+	"datarecording.sqliteWriter.ListTables":           "returns table names; callers treat the result as a set",
+	"datarecording.sqliteReader.ListTables":           "reader side, not simulation",
+	"internal/codec.Registry.Tags":                    "audit helper; result is sorted by its caller",
+	"tracing/tracingtest.LeakRecorder.OpenTasks":      "test helper",
+	"sourcefs.OpenTraceSource":                        "collects the root names; NewSource copies and sorts them (sort.Strings) before they are used",
 }
 
 // nondetCall reports calls that introduce run-to-run variation.
